@@ -372,8 +372,14 @@ func (o *oidcHandler) retrieveTokens(ctx context.Context, log telemetry.Logger, 
 
 	// Knock 5 seconds off the expiry time to take into account the time it may
 	// have taken to retrieve the token.
-	expiresIn := time.Duration(bodyTokens.ExpiresIn)*time.Second - 5
-	accessTokenExpiration := o.clock.Now().Add(expiresIn)
+	// The expires_in member is optional: when the Identity Provider does not announce a lifetime
+	// the expiration is left unset (as the refresh path does), instead of recording an access token
+	// that is already expired and sends the user to re-authenticate on every request.
+	var accessTokenExpiration time.Time
+	if bodyTokens.ExpiresIn > 0 {
+		expiresIn := time.Duration(bodyTokens.ExpiresIn)*time.Second - 5
+		accessTokenExpiration = o.clock.Now().Add(expiresIn)
+	}
 
 	log.Debug("saving tokens to session store")
 	if err := store.SetTokenResponse(ctx, sessionID, &oidc.TokenResponse{
